@@ -3,7 +3,7 @@
   the offset discipline (`okUL`), run on two streams that are the `layoutBytes` of its own layout for field
   values satisfying the program's relations, succeeds and assigns exactly those values.  This is the proof of
   `runU_go_layout` (Lemmas/SmbUnmarshal.lean) over `layoutUL`, with the loop statements and the final
-  un-advanced buffer read added; `Sized` carries what the fixed-array loop needs to know about the receiver.
+  un-advanced buffer read added; `Recv` carries what the run may rely on in the receiving structure.
 -/
 import Manticore.Lemmas.SmbUnmarshal
 import Manticore.Lemmas.SmbLoops
@@ -25,27 +25,45 @@ theorem flatMap_encBytes_length (C : Codecs) (typ : String) (size : Nat) (vs : L
     simp only [List.flatMap_cons, List.length_append, List.length_cons, Nat.mul_succ]
     rw [h v (List.mem_cons_self ..), ih (fun y hy => h y (List.mem_cons_of_mem _ hy))]; omega
 
-/-- the receiver's fixed arrays `fs` have the length the sender's have -/
-def Sized (fs : List String) (e env' : Env) : Prop :=
-  ∀ f ∈ fs, ∃ old xs, e.get f = some (.ns old) ∧ env'.get f = some (.ns xs) ∧ old.length = xs.length
+/-- what the run may rely on in the receiving structure (`recvFields`): a fixed array `(f, true)` has the length the
+    sender's has; an optional integer `(f, false)` the sender holds as zero is zero -/
+def Recv (fs : List (String × Bool)) (e env' : Env) : Prop :=
+  ∀ p ∈ fs,
+    (p.2 = true → ∃ old xs, e.get p.1 = some (.ns old) ∧ env'.get p.1 = some (.ns xs) ∧ old.length = xs.length) ∧
+    (p.2 = false → env'.get p.1 = some (.n 0) → e.get p.1 = some (.n 0))
 
-theorem Sized.set {fs : List String} {e env' : Env} (h : Sized fs e env') (g : String) (v : Val)
-    (hv : env'.get g = some v) : Sized fs (e.set g v) env' := by
-  intro f hf
-  obtain ⟨old, xs, h1, h2, h3⟩ := h f hf
-  by_cases hfg : f = g
-  · subst hfg
-    rw [h2] at hv
-    injection hv with hv
-    subst hv
-    exact ⟨xs, xs, Env.get_set_self _ _ _, h2, rfl⟩
-  · exact ⟨old, xs, by rw [Env.get_set_ne _ _ _ _ hfg]; exact h1, h2, h3⟩
+theorem Recv.set {fs : List (String × Bool)} {e env' : Env} (h : Recv fs e env') (g : String) (v : Val)
+    (hv : env'.get g = some v) : Recv fs (e.set g v) env' := by
+  intro p hp
+  obtain ⟨hs, hf⟩ := h p hp
+  by_cases hfg : p.1 = g
+  · refine ⟨fun hp2 => ?_, fun hp2 h0 => ?_⟩
+    · obtain ⟨old, xs, h1, h2, h3⟩ := hs hp2
+      rw [hfg] at h2
+      rw [h2] at hv
+      injection hv with hv
+      subst hv
+      exact ⟨xs, xs, by rw [hfg]; exact Env.get_set_self _ _ _, by rw [hfg]; exact h2, rfl⟩
+    · rw [hfg] at h0 ⊢
+      rw [h0] at hv
+      injection hv with hv
+      subst hv
+      exact Env.get_set_self _ _ _
+  · refine ⟨fun hp2 => ?_, fun hp2 h0 => ?_⟩
+    · obtain ⟨old, xs, h1, h2, h3⟩ := hs hp2
+      exact ⟨old, xs, by rw [Env.get_set_ne _ _ _ _ hfg]; exact h1, h2, h3⟩
+    · rw [Env.get_set_ne _ _ _ _ hfg]; exact hf hp2 h0
 
-theorem Sized.congr_left {fs : List String} {e e2 env' : Env} (h : Sized fs e env') (hg : ∀ x, e2.get x = e.get x) :
-    Sized fs e2 env' := by
-  intro f hf
-  obtain ⟨old, xs, h1, h2, h3⟩ := h f hf
+theorem Recv.congr_left {fs : List (String × Bool)} {e e2 env' : Env} (h : Recv fs e env') (hg : ∀ x, e2.get x = e.get x) :
+    Recv fs e2 env' := by
+  intro p hp
+  obtain ⟨hs, hf⟩ := h p hp
+  refine ⟨fun hp2 => ?_, fun hp2 h0 => by rw [hg]; exact hf hp2 h0⟩
+  obtain ⟨old, xs, h1, h2, h3⟩ := hs hp2
   exact ⟨old, xs, by rw [hg]; exact h1, h2, h3⟩
+
+theorem Recv.sized {fs : List (String × Bool)} {e env' : Env} (h : Recv fs e env') {f : String} (hf : (f, true) ∈ fs) :
+    ∃ old xs, e.get f = some (.ns old) ∧ env'.get f = some (.ns xs) ∧ old.length = xs.length := (h (f, true) hf).1 rfl
 
 theorem Agree.congr_left {fs : List String} {e e2 env' : Env} (h : Agree fs e env') (hg : ∀ x, e2.get x = e.get x) :
     Agree fs e2 env' := fun f hf => by rw [hg]; exact h f hf
@@ -108,7 +126,7 @@ theorem guard_passesL {C : Codecs} {T : String → Prop} (hC : LawfulCodecs C T)
       layoutUL r = some u → okUL hp hd pos seen r = true → guardFitsL b e r = true →
       relationsHold C env' plen pad r = true →
       (∀ sl ∈ u, SlotFit C T env' sl) →
-      Inv C env' pos s.P s.D s.offset u → Agree seen s.env env' → Sized (rangeFields r) s.env env' →
+      Inv C env' pos s.P s.D s.offset u → Agree seen s.env env' → Recv (recvFields r) s.env env' →
       ∃ n, evalExpr s e = some n ∧ s.offset + n ≤ (s.blk b).length := by
   induction r using layoutUL.induct with
   | case1 => intro u pos seen s pad _ _ hg; simp [guardFitsL] at hg
@@ -242,7 +260,7 @@ theorem guard_passesL {C : Codecs} {T : String → Prop} (hC : LawfulCodecs C T)
     simp only [okUL, Bool.and_eq_true] at hok
     simp only [guardFitsL, Bool.and_eq_true, beq_iff_eq] at hg
     obtain ⟨rfl, rfl⟩ := hg
-    obtain ⟨old, xs, hold, hxs, hlen⟩ := hsz f (by simp [rangeFields])
+    obtain ⟨old, xs, hold, hxs, hlen⟩ := hsz.sized (f := f) (by simp [recvFields])
     obtain ⟨pre, hblk, hoff⟩ := hinv.at (sl := .ints b w e' f none) hok.1
     refine ⟨w * old.length, by simp [evalExpr, hold], ?_⟩
     rw [blk_eq_pick, hlen]
@@ -267,13 +285,23 @@ theorem guard_passesL {C : Codecs} {T : String → Prop} (hC : LawfulCodecs C T)
     have hlen := congrArg List.length hblk
     simp only [Slot.blk, slotBytes, hget, List.length_append] at hlen
     omega
-  | case23 head tail h1 h2 h3 h4 h5 h6 h7 h8 h9 h10 h11 h12 h13 h14 =>
+  | case23 k b' n b'' w e' f m r hc _ => intro u pos seen s pad _ _ hg; simp [guardFitsL] at hg
+  | case24 k b' n b'' w e' f m r hc => intro u pos seen s pad hl; simp [layoutUL, hc] at hl
+  | case25 head tail h1 h2 h3 h4 h5 h6 h7 h8 h9 h10 h11 h12 h13 h14 h15 =>
     intro u pos seen s pad hl
     rw [layoutUL] at hl
     · cases hl
     all_goals assumption
 
 /-! ### the unmarshal program reads back what the layout encodes -/
+
+/-- "WordCount tells which": for every optional slot of the layout, the word count of the message equals the one
+    Unmarshal tests for iff the field is non-zero (so: on the wire) -/
+def WcTells (env' : Env) (wc : Nat) (u : List Slot) : Prop :=
+  ∀ b w e f k, Slot.opt b w e f (some k) ∈ u → ∀ x, env'.get f = some (.n x) → (wc = k ↔ x ≠ 0)
+
+theorem WcTells.tail {env' : Env} {wc : Nat} {sl : Slot} {u : List Slot} (h : WcTells env' wc (sl :: u)) :
+    WcTells env' wc u := fun b w e f k hm => h b w e f k (List.mem_cons_of_mem _ hm)
 
 theorem runU_go_layoutL {C : Codecs} {T : String → Prop} (hC : LawfulCodecs C T) (env' : Env) (plen : Nat) (hp hd : Bool)
     (stmts : List UStmt) :
@@ -282,20 +310,21 @@ theorem runU_go_layoutL {C : Codecs} {T : String → Prop} (hC : LawfulCodecs C 
       relationsHold C env' plen pad stmts = true →
       (∀ sl ∈ u, SlotFit C T env' sl) →
       (∀ b, restOnlyLast (u.filter (·.blk == b)) = true) →
-      Inv C env' pos s.P s.D s.offset u → Agree seen s.env env' → Sized (rangeFields stmts) s.env env' →
+      Inv C env' pos s.P s.D s.offset u → Agree seen s.env env' → Recv (recvFields stmts) s.env env' →
+      WcTells env' s.wordCount u →
       ∃ d, runU.go C s stmts = .ok d ∧ (∀ g ∈ seen, d.get g = env'.get g) ∧
         (NoFire hp hd s.P s.D → ∀ g, (g ∈ seen ∨ g ∈ u.map Slot.field) → d.get g = env'.get g) := by
   induction stmts using layoutUL.induct with
   | case1 =>
-    intro u pos seen s pad hl _ _ _ _ _ hag _
+    intro u pos seen s pad hl _ _ _ _ _ hag _ _
     simp only [layoutUL, Option.some.injEq] at hl; subst hl
     refine ⟨s.env, go_nil C s, fun g hg => hag g hg, fun _ g hg => ?_⟩
     rcases hg with hg | hg
     · exact hag g hg
     · simp at hg
   | case2 p d r ih =>
-    intro u pos seen s pad hl hok hrel hfit hrest hinv hag hsz
-    simp only [rangeFields] at hsz
+    intro u pos seen s pad hl hok hrel hfit hrest hinv hag hsz hwc
+    simp only [recvFields] at hsz
     simp only [layoutUL] at hl
     simp only [okUL, Bool.and_eq_true] at hok
     have hrel' : relationsHold C env' plen pad r = true := by simpa [relationsHold] using hrel
@@ -320,19 +349,19 @@ theorem runU_go_layoutL {C : Codecs} {T : String → Prop} (hC : LawfulCodecs C 
         · exact h2 h
     · have hst : runUStmt C s (.retIfEmpty p d) = .next s := by rw [runUStmt, if_neg hfire]
       rw [go_next r hst]
-      exact ih u pos seen s pad hl hok.2 hrel' hfit hrest hinv hag hsz
+      exact ih u pos seen s pad hl hok.2 hrel' hfit hrest hinv hag hsz hwc
   | case3 r ih =>
-    intro u pos seen s pad hl hok hrel hfit hrest hinv hag hsz
-    simp only [rangeFields] at hsz
+    intro u pos seen s pad hl hok hrel hfit hrest hinv hag hsz hwc
+    simp only [recvFields] at hsz
     simp only [layoutUL] at hl
     simp only [okUL] at hok
     have hrel' : relationsHold C env' plen pad r = true := by simpa [relationsHold] using hrel
     have hst : runUStmt C s .resetOffset = .next { s with offset := 0 } := by rw [runUStmt]
     rw [go_next r hst]
-    exact ih u pos.reset seen _ pad hl hok hrel' hfit hrest hinv.reset hag hsz
+    exact ih u pos.reset seen _ pad hl hok hrel' hfit hrest hinv.reset hag hsz hwc
   | case4 b e r ih =>
-    intro u pos seen s pad hl hok hrel hfit hrest hinv hag hsz
-    simp only [rangeFields] at hsz
+    intro u pos seen s pad hl hok hrel hfit hrest hinv hag hsz hwc
+    simp only [recvFields] at hsz
     simp only [layoutUL] at hl
     simp only [okUL, Bool.and_eq_true] at hok
     have hrel' : relationsHold C env' plen pad r = true := by simpa [relationsHold] using hrel
@@ -340,10 +369,10 @@ theorem runU_go_layoutL {C : Codecs} {T : String → Prop} (hC : LawfulCodecs C 
     have hst : runUStmt C s (.guard b e) = .next s := by
       rw [runUStmt, hn]; simp only []; rw [if_neg (by omega)]
     rw [go_next r hst]
-    exact ih u pos seen s pad hl hok.2 hrel' hfit hrest hinv hag hsz
+    exact ih u pos seen s pad hl hok.2 hrel' hfit hrest hinv hag hsz hwc
   | case5 b e f n r ih =>
-    intro u pos seen s pad hl hok hrel hfit hrest hinv hag hsz
-    simp only [rangeFields] at hsz
+    intro u pos seen s pad hl hok hrel hfit hrest hinv hag hsz hwc
+    simp only [recvFields] at hsz
     simp only [layoutUL, if_true, Option.map_eq_some_iff] at hl
     obtain ⟨u', hl', rfl⟩ := hl
     simp only [okUL, Bool.and_eq_true] at hok
@@ -359,13 +388,13 @@ theorem runU_go_layoutL {C : Codecs} {T : String → Prop} (hC : LawfulCodecs C 
     rw [hsb, intBytes_length] at hinv'
     obtain ⟨d, hd, hseen, hagree⟩ := ih u' (pos.read b) (f :: seen)
       { s with env := s.env.set f (.n x), offset := s.offset + n } pad hl' hok.2 hrel'
-      (fun sl h => hfit sl (List.mem_cons_of_mem _ h)) (restOnlyLast_tail hrest) hinv' (hag.set f (.n x) hx) (hsz.set f (.n x) hx)
+      (fun sl h => hfit sl (List.mem_cons_of_mem _ h)) (restOnlyLast_tail hrest) hinv' (hag.set f (.n x) hx) (hsz.set f (.n x) hx) hwc.tail
     exact ⟨d, by rw [go_next2 r h1 h2]; exact hd, fun g hg => hseen g (List.mem_cons_of_mem _ hg),
       fun hnf g hg => hagree hnf g (mem_shift hg)⟩
   | case6 b w e f n r hne => intro u pos seen s pad hl; simp [layoutUL, hne] at hl
   | case7 b e f n r ih =>
-    intro u pos seen s pad hl hok hrel hfit hrest hinv hag hsz
-    simp only [rangeFields] at hsz
+    intro u pos seen s pad hl hok hrel hfit hrest hinv hag hsz hwc
+    simp only [recvFields] at hsz
     simp only [layoutUL, if_true, Option.map_eq_some_iff] at hl
     obtain ⟨u', hl', rfl⟩ := hl
     simp only [okUL, Bool.and_eq_true] at hok
@@ -381,13 +410,13 @@ theorem runU_go_layoutL {C : Codecs} {T : String → Prop} (hC : LawfulCodecs C 
     rw [hsb, intBytes_length] at hinv'
     obtain ⟨d, hd, hseen, hagree⟩ := ih u' (pos.read b) (f :: seen)
       { s with env := s.env.set f (.n x), offset := s.offset + n } pad hl' hok.2 hrel'
-      (fun sl h => hfit sl (List.mem_cons_of_mem _ h)) (restOnlyLast_tail hrest) hinv' (hag.set f (.n x) hx) (hsz.set f (.n x) hx)
+      (fun sl h => hfit sl (List.mem_cons_of_mem _ h)) (restOnlyLast_tail hrest) hinv' (hag.set f (.n x) hx) (hsz.set f (.n x) hx) hwc.tail
     exact ⟨d, by rw [go_next2 r h1 h2]; exact hd, fun g hg => hseen g (List.mem_cons_of_mem _ hg),
       fun hnf g hg => hagree hnf g (mem_shift hg)⟩
   | case8 b w e f n r hne => intro u pos seen s pad hl; simp [layoutUL, hne] at hl
   | case9 b f r ih =>
-    intro u pos seen s pad hl hok hrel hfit hrest hinv hag hsz
-    simp only [rangeFields] at hsz
+    intro u pos seen s pad hl hok hrel hfit hrest hinv hag hsz hwc
+    simp only [recvFields] at hsz
     simp only [layoutUL, Option.map_eq_some_iff] at hl
     obtain ⟨u', hl', rfl⟩ := hl
     simp only [okUL, Bool.and_eq_true] at hok
@@ -403,12 +432,12 @@ theorem runU_go_layoutL {C : Codecs} {T : String → Prop} (hC : LawfulCodecs C 
     rw [hsb] at hinv'
     obtain ⟨d, hd, hseen, hagree⟩ := ih u' (pos.read b) (f :: seen)
       { s with env := s.env.set f (.n x), offset := s.offset + 1 } pad hl' hok.2 hrel'
-      (fun sl h => hfit sl (List.mem_cons_of_mem _ h)) (restOnlyLast_tail hrest) hinv' (hag.set f (.n x) hx) (hsz.set f (.n x) hx)
+      (fun sl h => hfit sl (List.mem_cons_of_mem _ h)) (restOnlyLast_tail hrest) hinv' (hag.set f (.n x) hx) (hsz.set f (.n x) hx) hwc.tail
     exact ⟨d, by rw [go_next2 r h1 h2]; exact hd, fun g hg => hseen g (List.mem_cons_of_mem _ hg),
       fun hnf g hg => hagree hnf g (mem_shift hg)⟩
   | case10 b f m r ih =>
-    intro u pos seen s pad hl hok hrel hfit hrest hinv hag hsz
-    simp only [rangeFields] at hsz
+    intro u pos seen s pad hl hok hrel hfit hrest hinv hag hsz hwc
+    simp only [recvFields] at hsz
     simp only [layoutUL, if_true, Option.map_eq_some_iff] at hl
     obtain ⟨u', hl', rfl⟩ := hl
     simp only [okUL, Bool.and_eq_true] at hok
@@ -427,13 +456,13 @@ theorem runU_go_layoutL {C : Codecs} {T : String → Prop} (hC : LawfulCodecs C 
     rw [hsb] at hinv'
     obtain ⟨d, hd, hseen, hagree⟩ := ih u' (pos.read b) (f :: seen)
       { s with env := s.env.set f (.b bs), offset := s.offset + bs.length } pad hl' hok.2 hrel'
-      (fun sl h => hfit sl (List.mem_cons_of_mem _ h)) (restOnlyLast_tail hrest) hinv' hag' (hsz.set f (.b bs) hget)
+      (fun sl h => hfit sl (List.mem_cons_of_mem _ h)) (restOnlyLast_tail hrest) hinv' hag' (hsz.set f (.b bs) hget) hwc.tail
     exact ⟨d, by rw [go_next2 r h1 h2]; exact hd, fun g hg => hseen g (List.mem_cons_of_mem _ hg),
       fun hnf g hg => hagree hnf g (mem_shift hg)⟩
   | case11 b f n m r hne => intro u pos seen s pad hl; simp [layoutUL, hne] at hl
   | case12 b g r ih =>
-    intro u pos seen s pad hl hok hrel hfit hrest hinv hag hsz
-    simp only [rangeFields] at hsz
+    intro u pos seen s pad hl hok hrel hfit hrest hinv hag hsz hwc
+    simp only [recvFields] at hsz
     simp only [layoutUL, if_true, Option.map_eq_some_iff] at hl
     obtain ⟨u', hl', rfl⟩ := hl
     simp only [okUL, Bool.and_eq_true] at hok
@@ -456,13 +485,13 @@ theorem runU_go_layoutL {C : Codecs} {T : String → Prop} (hC : LawfulCodecs C 
     rw [hsb] at hinv'
     obtain ⟨d, hd, hseen, hagree⟩ := ih u' (pos.read b) (g :: seen)
       { s with env := s.env.set g (.b bs), offset := s.offset + bs.length } pad hl' hok.2 hrel'
-      (fun sl h => hfit sl (List.mem_cons_of_mem _ h)) (restOnlyLast_tail hrest) hinv' (hag.set g (.b bs) hget) (hsz.set g (.b bs) hget)
+      (fun sl h => hfit sl (List.mem_cons_of_mem _ h)) (restOnlyLast_tail hrest) hinv' (hag.set g (.b bs) hget) (hsz.set g (.b bs) hget) hwc.tail
     exact ⟨d, by rw [go_next2 r h1 h2]; exact hd, fun g hg => hseen g (List.mem_cons_of_mem _ hg),
       fun hnf g hg => hagree hnf g (mem_shift hg)⟩
   | case13 b f g r hne => intro u pos seen s pad hl; simp [layoutUL, hne] at hl
   | case14 b f m r ih =>
-    intro u pos seen s pad hl hok hrel hfit hrest hinv hag hsz
-    simp only [rangeFields] at hsz
+    intro u pos seen s pad hl hok hrel hfit hrest hinv hag hsz hwc
+    simp only [recvFields] at hsz
     simp only [layoutUL, if_true, Option.map_eq_some_iff] at hl
     obtain ⟨u', hl', rfl⟩ := hl
     simp only [okUL, Bool.and_eq_true] at hok
@@ -477,13 +506,13 @@ theorem runU_go_layoutL {C : Codecs} {T : String → Prop} (hC : LawfulCodecs C 
     rw [hsb, ← hm] at hinv'
     obtain ⟨d, hd, hseen, hagree⟩ := ih u' (pos.read b) (f :: seen)
       { s with env := s.env.set f (.b bs), offset := s.offset + m } pad hl' hok.2 hrel'
-      (fun sl h => hfit sl (List.mem_cons_of_mem _ h)) (restOnlyLast_tail hrest) hinv' (hag.set f (.b bs) hget) (hsz.set f (.b bs) hget)
+      (fun sl h => hfit sl (List.mem_cons_of_mem _ h)) (restOnlyLast_tail hrest) hinv' (hag.set f (.b bs) hget) (hsz.set f (.b bs) hget) hwc.tail
     exact ⟨d, by rw [go_next2 r h1 h2]; exact hd, fun g hg => hseen g (List.mem_cons_of_mem _ hg),
       fun hnf g hg => hagree hnf g (mem_shift hg)⟩
   | case15 b f n m r hne => intro u pos seen s pad hl; simp [layoutUL, hne] at hl
   | case16 b f t win r ih =>
-    intro u pos seen s pad hl hok hrel hfit hrest hinv hag hsz
-    simp only [rangeFields] at hsz
+    intro u pos seen s pad hl hok hrel hfit hrest hinv hag hsz hwc
+    simp only [recvFields] at hsz
     simp only [layoutUL, Option.map_eq_some_iff] at hl
     obtain ⟨u', hl', rfl⟩ := hl
     simp only [okUL, Bool.and_eq_true] at hok
@@ -514,12 +543,12 @@ theorem runU_go_layoutL {C : Codecs} {T : String → Prop} (hC : LawfulCodecs C 
     rw [hsb] at hinv'
     obtain ⟨d, hd, hseen, hagree⟩ := ih u' (pos.read b) (f :: seen)
       { s with env := s.env.set f (.t v2), bytesRead := bs.length, offset := s.offset + bs.length } pad hl' hok.2 hrel'
-      (fun sl h => hfit sl (List.mem_cons_of_mem _ h)) (restOnlyLast_tail hrest) hinv' (hag.set f (.t v2) hget) (hsz.set f (.t v2) hget)
+      (fun sl h => hfit sl (List.mem_cons_of_mem _ h)) (restOnlyLast_tail hrest) hinv' (hag.set f (.t v2) hget) (hsz.set f (.t v2) hget) hwc.tail
     exact ⟨d, by rw [go_next2 r h1 h2]; exact hd, fun g hg => hseen g (List.mem_cons_of_mem _ hg),
       fun hnf g hg => hagree hnf g (mem_shift hg)⟩
   | case17 f g b w e f' g' r hfg ih =>
-    intro u pos seen s pad hl hok hrel hfit hrest hinv hag hsz
-    simp only [rangeFields] at hsz
+    intro u pos seen s pad hl hok hrel hfit hrest hinv hag hsz hwc
+    simp only [recvFields] at hsz
     obtain ⟨rfl, rfl⟩ := hfg
     simp only [layoutUL, and_self, if_true, Option.map_eq_some_iff] at hl
     obtain ⟨u', hl', rfl⟩ := hl
@@ -552,17 +581,17 @@ theorem runU_go_layoutL {C : Codecs} {T : String → Prop} (hC : LawfulCodecs C 
     obtain ⟨d, hd, hseen, hagree⟩ := ih u' (pos.read b) (f :: seen)
       { s with env := (s.env.set f (.ns (List.replicate k 0))).set f (.ns xs2), offset := s.offset + w * xs2.length } pad hl' hok.2 hrel'
       (fun sl h => hfit sl (List.mem_cons_of_mem _ h)) (restOnlyLast_tail hrest) hinv'
-      ((hag.set f (.ns xs2) hgetf).congr_left hgs) ((hsz.set f (.ns xs2) hgetf).congr_left hgs)
+      ((hag.set f (.ns xs2) hgetf).congr_left hgs) ((hsz.set f (.ns xs2) hgetf).congr_left hgs) hwc.tail
     exact ⟨d, by rw [go_next2 r h1 h2]; exact hd, fun g hg => hseen g (List.mem_cons_of_mem _ hg),
       fun hnf g hg => hagree hnf g (mem_shift hg)⟩
   | case18 f g b w e f' g' r hne => intro u pos seen s pad hl; simp [layoutUL, hne] at hl
   | case19 b w e f r ih =>
-    intro u pos seen s pad hl hok hrel hfit hrest hinv hag hsz
+    intro u pos seen s pad hl hok hrel hfit hrest hinv hag hsz hwc
     simp only [layoutUL, Option.map_eq_some_iff] at hl
     obtain ⟨u', hl', rfl⟩ := hl
     simp only [okUL, Bool.and_eq_true] at hok
     have hrel' : relationsHold C env' plen pad r = true := by simpa [relationsHold] using hrel
-    obtain ⟨old, xs, hold, hgetf, hlen⟩ := hsz f (by simp [rangeFields])
+    obtain ⟨old, xs, hold, hgetf, hlen⟩ := hsz.sized (f := f) (by simp [recvFields])
     obtain ⟨xs2, hx2, hlt⟩ := hfit (.ints b w e f none) (List.mem_cons_self ..)
     have hxs : xs2 = xs := by rw [hgetf] at hx2; injection hx2 with h; injection h with h; exact h.symm
     subst hxs
@@ -577,16 +606,16 @@ theorem runU_go_layoutL {C : Codecs} {T : String → Prop} (hC : LawfulCodecs C 
       simp
     have hinv' := hinv.step (sl := .ints b w e f none) hok.1
     rw [hsb, flatMap_intBytes_length] at hinv'
-    have hsz' : Sized (rangeFields r) s.env env' := fun x hx => hsz x (by simp [rangeFields, hx])
+    have hsz' : Recv (recvFields r) s.env env' := fun x hx => hsz x (by simp [recvFields, hx])
     obtain ⟨d, hd, hseen, hagree⟩ := ih u' (pos.read b) (f :: seen)
       { s with env := s.env.set f (.ns xs2), offset := s.offset + w * xs2.length } pad hl' hok.2 hrel'
       (fun sl h => hfit sl (List.mem_cons_of_mem _ h)) (restOnlyLast_tail hrest) hinv'
-      (hag.set f (.ns xs2) hgetf) (hsz'.set f (.ns xs2) hgetf)
+      (hag.set f (.ns xs2) hgetf) (hsz'.set f (.ns xs2) hgetf) hwc.tail
     exact ⟨d, by rw [go_next r h1]; exact hd, fun g hg => hseen g (List.mem_cons_of_mem _ hg),
       fun hnf g hg => hagree hnf g (mem_shift hg)⟩
   | case20 b f g t size r ih =>
-    intro u pos seen s pad hl hok hrel hfit hrest hinv hag hsz
-    simp only [rangeFields] at hsz
+    intro u pos seen s pad hl hok hrel hfit hrest hinv hag hsz hwc
+    simp only [recvFields] at hsz
     simp only [layoutUL, if_true, Option.map_eq_some_iff] at hl
     obtain ⟨u', hl', rfl⟩ := hl
     simp only [okUL, Bool.and_eq_true, List.contains_iff_mem, beq_iff_eq] at hok
@@ -621,12 +650,12 @@ theorem runU_go_layoutL {C : Codecs} {T : String → Prop} (hC : LawfulCodecs C 
     obtain ⟨d, hd, hseen, hagree⟩ := ih u' (pos.read b) (f :: seen)
       { s with env := (s.env.set f (.ts [])).set f (.ts vs2), offset := s.offset + size * vs2.length } pad hl' hok.2 hrel'
       (fun sl h => hfit sl (List.mem_cons_of_mem _ h)) (restOnlyLast_tail hrest) hinv'
-      ((hag.set f (.ts vs2) hgetf).congr_left hgs) ((hsz.set f (.ts vs2) hgetf).congr_left hgs)
+      ((hag.set f (.ts vs2) hgetf).congr_left hgs) ((hsz.set f (.ts vs2) hgetf).congr_left hgs) hwc.tail
     exact ⟨d, by rw [go_next2 r h1 h2]; exact hd, fun g hg => hseen g (List.mem_cons_of_mem _ hg),
       fun hnf g hg => hagree hnf g (mem_shift hg)⟩
   | case21 f b f' g t size r hne => intro u pos seen s pad hl; simp [layoutUL, hne] at hl
   | case22 b f m =>
-    intro u pos seen s pad hl hok hrel hfit hrest hinv hag hsz
+    intro u pos seen s pad hl hok hrel hfit hrest hinv hag hsz hwc
     simp only [layoutUL, Option.some.injEq] at hl
     subst hl
     simp only [okUL, Bool.and_eq_true] at hok
@@ -643,7 +672,66 @@ theorem runU_go_layoutL {C : Codecs} {T : String → Prop} (hC : LawfulCodecs C 
     · simp only [List.map_cons, List.map_nil, List.mem_singleton, Slot.field] at hg
       subst hg
       exact hag' g (List.mem_cons_self ..)
-  | case23 head tail h1 h2 h3 h4 h5 h6 h7 h8 h9 h10 h11 h12 h13 h14 =>
+  | case23 k b n b' w e f m r hcond ih =>
+    intro u pos seen s pad hl hok hrel hfit hrest hinv hag hsz hwc
+    obtain ⟨rfl, hn, hm⟩ := hcond
+    subst hm
+    subst hn
+    simp only [layoutUL, and_self, if_true, Option.map_eq_some_iff] at hl
+    obtain ⟨u', hl', rfl⟩ := hl
+    simp only [okUL, Bool.and_eq_true] at hok
+    have hrel' : relationsHold C env' plen pad r = true := by
+      unfold relationsHold at hrel; rw [Bool.and_eq_true] at hrel; exact hrel.2
+    obtain ⟨x, hx, hlt⟩ := hfit (.opt b n e f (some k)) (List.mem_cons_self ..)
+    obtain ⟨pre, hblk, hoff⟩ := hinv.at (sl := .opt b n e f (some k)) hok.1
+    have hiff := hwc b n e f k (List.mem_cons_self ..) x hx
+    have hsz' : Recv (recvFields r) s.env env' := fun p hp => hsz p (by simp [recvFields, hp])
+    by_cases hx0 : x = 0
+    · -- the field is not on the wire, the word count says so, and the receiver holds zero already
+      have hne : ¬ s.wordCount = k := fun h => (hiff.mp h) hx0
+      have h1 : runUStmt C s (.ifWordCount k [.guard b (.lit n), .readInt b n e f, .advance (.lit n)]) = .next s := by
+        rw [runUStmt, if_neg hne]
+      have hsb : slotBytes C env' (.opt b n e f (some k)) = [] := by simp [slotBytes, hx, hx0]
+      have hinv' := hinv.step (sl := .opt b n e f (some k)) hok.1
+      rw [hsb] at hinv'
+      simp only [List.length_nil, Nat.add_zero] at hinv'
+      have hsf : s.env.get f = some (.n 0) := (hsz (f, false) (by simp [recvFields])).2 rfl (by rw [hx, hx0])
+      have hag' : Agree (f :: seen) s.env env' := by
+        intro g hg
+        rcases List.mem_cons.mp hg with rfl | hg
+        · rw [hsf, hx, hx0]
+        · exact hag g hg
+      obtain ⟨d, hd, hseen, hagree⟩ := ih u' (pos.read b) (f :: seen) s pad hl' hok.2 hrel'
+        (fun sl h => hfit sl (List.mem_cons_of_mem _ h)) (restOnlyLast_tail hrest) hinv' hag' hsz' hwc.tail
+      exact ⟨d, by rw [go_next r h1]; exact hd, fun g hg => hseen g (List.mem_cons_of_mem _ hg),
+        fun hnf g hg => hagree hnf g (mem_shift hg)⟩
+    · -- the field is on the wire and the word count says so
+      have heq : s.wordCount = k := hiff.mpr hx0
+      have hsb : slotBytes C env' (.opt b n e f (some k)) = intBytes n e x := by simp [slotBytes, hx, hx0]
+      rw [hsb] at hblk
+      have hblk' : s.blk b = pre ++ (intBytes n e x ++ layoutBytes C env' (u'.filter (·.blk == b))) :=
+        (blk_eq_pick s b).trans hblk
+      have hg : runUStmt C s (.guard b (.lit n)) = .next s := by
+        rw [runUStmt]
+        simp only [evalExpr]
+        rw [if_neg (by rw [hblk']; simp only [List.length_append, intBytes_length]; omega)]
+      have hr := step_readInt C s b n e f pre _ _ hblk' hoff (intBytes_length n e x).symm
+      rw [intVal_intBytes n e x hlt] at hr
+      have ha := step_advance C { s with env := s.env.set f (.n x) } (.lit n) n rfl
+      have h1 : runUStmt C s (.ifWordCount k [.guard b (.lit n), .readInt b n e f, .advance (.lit n)]) =
+          .next { s with env := s.env.set f (.n x), offset := s.offset + n } := by
+        rw [runUStmt, if_pos heq]
+        simp only [runUStmts, hg, hr, ha]
+      have hinv' := hinv.step (sl := .opt b n e f (some k)) hok.1
+      rw [hsb, intBytes_length] at hinv'
+      obtain ⟨d, hd, hseen, hagree⟩ := ih u' (pos.read b) (f :: seen)
+        { s with env := s.env.set f (.n x), offset := s.offset + n } pad hl' hok.2 hrel'
+        (fun sl h => hfit sl (List.mem_cons_of_mem _ h)) (restOnlyLast_tail hrest) hinv' (hag.set f (.n x) hx)
+        (hsz'.set f (.n x) hx) hwc.tail
+      exact ⟨d, by rw [go_next r h1]; exact hd, fun g hg => hseen g (List.mem_cons_of_mem _ hg),
+        fun hnf g hg => hagree hnf g (mem_shift hg)⟩
+  | case24 k b n b' w e f m r hc => intro u pos seen s pad hl; simp [layoutUL, hc] at hl
+  | case25 head tail h1 h2 h3 h4 h5 h6 h7 h8 h9 h10 h11 h12 h13 h14 h15 =>
     intro u pos seen s pad hl
     rw [layoutUL] at hl
     · cases hl
